@@ -239,9 +239,13 @@ BeginBlock(st, ev) ==
 
 \* gov EndBlocker: proposals whose voting period ended are tallied; a passed
 \* proposal's messages run all-or-nothing
+\* parameter structures that a rolled-back proposal had already written in its discarded branch (observation variable
+\* st.aux.ghostp, per module; never compared with the code; lets Goals.tla aim at operations whose outcome would differ)
+GhostParams(pr) == { <<pr.msgs[i].mod, pr.msgs[i].p>> : i \in { j \in DOMAIN pr.msgs : pr.msgs[j].t = "UpdParams" } }
 ExecProp(pr, st) ==
   IF ~pr.yes THEN st
-  ELSE LET r == RunMsgs(st, pr.msgs, <<>>) IN IF r.ok THEN r.st ELSE st
+  ELSE LET r == RunMsgs(st, pr.msgs, <<>>) IN
+       IF r.ok THEN r.st ELSE [st EXCEPT !.aux.ghostp = @ \cup GhostParams(pr)]
 EndBlock(st, ev) ==
   LET due  == SelectSeq(st.aux.props, LAMBDA pr : pr.end <= st.time)
       keep == SelectSeq(st.aux.props, LAMBDA pr : pr.end > st.time)
